@@ -30,6 +30,7 @@ SESSION_HELPER = {"HC": "1/2", "HD": "2"}
 
 # priority order matters only among the ids that are listed as "known"
 FINDINGS = [
+    ("F-C06-16", lambda f, fl, ren, params: "class_attr" in f),
     ("F-C06-10", lambda f, fl, ren, params: "local_import_alias" in f),
     ("F-C06-9", lambda f, fl, ren, params: "call_kw_nopos" in f),
     ("F-C06-3", lambda f, fl, ren, params: "cmp_eqne" in f),
@@ -109,6 +110,25 @@ def make_jobs(ctx, nfn: int, wd: Path):
                  "sources": {helper: L.HELPER_SRC, "c06g": L.HELPER2_SRC, "c06m_li": g0.header() + "\n\n".join(li)},
                  "fns": li_names, "seed": 5, "npoints": 8, "known_keys": ctx.known_keys,
                  "renamings": {n: [None, ["y", "x"]] for n in li_names}})
+    # branches of several plain assignments that fall through to `return <name>` (seed-independent)
+    mb = L.multi_assign_bodies()
+    ctx.extra_cov["multi_assign_branch_programs"] = len(mb)
+    for m in range(0, len(mb), 24):
+        names_ = [f"ma{m + i}" for i in range(len(mb[m:m + 24]))]
+        src = "\n\n".join(f"def {n}(x, y):\n{b}\n" for n, b in zip(names_, mb[m:m + 24]))
+        mod = f"c06m_ma{m // 24}"
+        jobs.append({"workdir": str(wd), "mod": mod, "helper": helper,
+                     "sources": {helper: L.HELPER_SRC, "c06g": L.HELPER2_SRC, mod: g0.header() + src},
+                     "fns": names_, "seed": 6, "npoints": 8, "known_keys": ctx.known_keys,
+                     "renamings": {n: [None, ["y", "x"]] for n in names_}})
+    # function-local imports inside branches (seed-independent)
+    lbs = L.branch_import_sources()
+    lb_names = [f"lb{i}" for i in range(len(lbs))]
+    ctx.extra_cov["branch_import_programs"] = len(lb_names)
+    jobs.append({"workdir": str(wd), "mod": "c06m_lb", "helper": helper,
+                 "sources": {helper: L.HELPER_SRC, "c06g": L.HELPER2_SRC, "c06m_lb": g0.header() + "\n\n".join(lbs)},
+                 "fns": lb_names, "seed": 7, "npoints": 10, "known_keys": ctx.known_keys,
+                 "renamings": {n: [None, ["y", "x"]] for n in lb_names}})
     # every legal call shape (positional / keyword / defaults left out) of the helper signatures (seed-independent)
     exprs = ["x", "y", "z", "(x + y)", "(y * 2)", "(z - 1)"]
     srcs, names = [], []
@@ -257,8 +277,8 @@ def judge_fn(ctx, job, res, resps):
                 if more:
                     ctx.hist["simplification_more_defined_points"] = ctx.hist.get("simplification_more_defined_points", 0) + more
                     M["vals"] = [b if a == "undef" else a for a, b in zip(M["vals"], R["vals"])]
-            if "local_import" in feats:
-                # function-local imports (ctx.modules / ctx.fns) are not in the model: judged by the oracle alone
+            if "local_import_unencoded" in feats:
+                # `import a.b` without alias, relative / star imports: not encoded, judged by the oracle alone
                 ctx.hist["model_silent:local_import"] = ctx.hist.get("model_silent:local_import", 0) + 1
                 M = None
             elif status != "expr" and M["status"] == "expr":
@@ -280,7 +300,10 @@ def judge_fn(ctx, job, res, resps):
         finding = next((fid for fid in cands if fid in ctx.known), None)
         # a call with keyword arguments only has no Python semantics in the Lean model: outside the theorem's domain
         # the theorems have no side condition any more; outside the model are only function-local imports (oracle-only)
-        in_domain = "local_import" not in feats
+        # classes (instantiated by `_get_inner_object`) are outside the model: F-C06-16, judged by the oracle alone
+        in_domain = "local_import_unencoded" not in feats and "class_attr" not in feats
+        if "class_attr" in feats:
+            M = None
         if res.get("session2"):
             ctx.hist["session:second_translation"] = ctx.hist.get("session:second_translation", 0) + 1
         nontrivial = status == "expr" and bool(feats & {"if", "ifexp", "call_user", "tuple_assign"} or "=" in res["src"])
